@@ -482,7 +482,7 @@ Proof.
       * exists (APunct RPAR). split; [rewrite E, E23, E3; reflexivity|cbn; tauto].
     + split.
       * assert (Hun : exists p, g_un (gram_of f) (p1 MINUS) = Some p /\ (p <= PMAX)%nat)
-          by (destruct f; cbn; eexists; split; try reflexivity; unfold PMAX; lia).
+          by (destruct f; cbn; eexists; (split; [reflexivity|apply Nat.leb_le; reflexivity])).
         destruct Hun as [p [Hp Hle2]]. cbn [wf_prec prec]. rewrite Hp, Hres, Hdot.
         rewrite (proj2 (Nat.leb_le _ _) Hle2). reflexivity.
       * split; [exact Hle|reflexivity].
@@ -604,7 +604,7 @@ Proof.
       split; [exact W|]. split; [|exact H0].
       apply Nat.leb_le in Hroot.
       pose proof (prec_csubst (gram_of f) (root_min f) (map (ast env f) kids) a HKO) as PC.
-      rewrite Hlen2 in PC. specialize (PC Hholes). lia.
+      rewrite Hlen2 in PC. specialize (PC Hholes). exact (Nat.le_trans _ _ _ Hroot PC).
 Qed.
 
 (* the statements used by Props/Properties_C19.v *)
